@@ -425,6 +425,14 @@ func Gen(tier string, emit func(Case)) {
 						{Index: slots[j].idx, Text: commentText(kk[1], 2), Role: slots[j].slot.Role},
 					}, slots[i].slot.Name+"+"+slots[j].slot.Name+"/"+commentKinds[kk[0]].name+"+"+commentKinds[kk[1]].name)
 				}
+				if slots[j].slot.Role == "leading" {
+					// a comment, then (at a later own-line placeholder) a comment separated from its statement by an empty line
+					emitDeco([]gen.Deco{
+						{Index: slots[i].idx, Text: commentText(0, 1), Role: slots[i].slot.Role},
+						{Index: slots[j].idx, Text: commentText(0, 2), Role: slots[j].slot.Role},
+						{Index: slots[j].idx, Text: "\n\n", Role: "raw"},
+					}, slots[i].slot.Name+"+"+slots[j].slot.Name+"/sharp+sharp+blank", slots[j].slot.Name)
+				}
 				if thorough {
 					for k := j + 1; k < len(slots); k++ {
 						emitDeco([]gen.Deco{
